@@ -71,3 +71,15 @@ theorem c26_subiterator_code_reviewed :
     Orca.Gen.ApiOutline.component_subiterator_next = Orca.ApiOutlineSpec.component_subiterator_next
     ∧ Orca.Gen.ApiOutline.component_subiterator_next_module = Orca.ApiOutlineSpec.component_subiterator_next_module :=
   ⟨rfl, rfl⟩
+
+/-- **The tie to the source (regenerated on every run).** The component iterator's injection API, word for word: every function addresses `comp.modules[mod_idx]` and then does what the module iterator does. -/
+theorem c26_injection_api_code_reviewed :
+    Orca.Gen.ApiOutline.compiter_inject = Orca.ApiOutlineSpec.compiter_inject
+    ∧ Orca.Gen.ApiOutline.compiter_inject_at = Orca.ApiOutlineSpec.compiter_inject_at
+    ∧ Orca.Gen.ApiOutline.compiter_set_instrument_mode_at = Orca.ApiOutlineSpec.compiter_set_instrument_mode_at
+    ∧ Orca.Gen.ApiOutline.compiter_set_func_instrument_mode = Orca.ApiOutlineSpec.compiter_set_func_instrument_mode
+    ∧ Orca.Gen.ApiOutline.compiter_clear_instr_at = Orca.ApiOutlineSpec.compiter_clear_instr_at
+    ∧ Orca.Gen.ApiOutline.compiter_add_instr_at = Orca.ApiOutlineSpec.compiter_add_instr_at
+    ∧ Orca.Gen.ApiOutline.compiter_empty_alternate_at = Orca.ApiOutlineSpec.compiter_empty_alternate_at
+    ∧ Orca.Gen.ApiOutline.compiter_empty_block_alt_at = Orca.ApiOutlineSpec.compiter_empty_block_alt_at :=
+  ⟨rfl, rfl, rfl, rfl, rfl, rfl, rfl, rfl⟩
